@@ -41,7 +41,7 @@ Definition run_gbase (fields : list str) : str :=
           if starts_with (lit "tab:") sal then
             let ones := map (fun p => if str_eqb p (lit "e") then [] else p) (Str.split_on 124 (skipn 4 sal)) in
             let pc := table_salter ones in
-            match gen__BaseIpAnonymizer____init__ (S n') (new_obj "W") (S_ "s") (VInt (Z.of_nat n')) (VFun (of_string "salter")) (VInt (Z.of_nat B')) with
+            match gen__BaseIpAnonymizer____init__ pc (S n') (new_obj "W") (S_ "s") (VInt (Z.of_nat n')) (VFun (of_string "salter")) (VInt (Z.of_nat B')) with
             | Normal (VTuple [_; self]) =>
                 join [32] (map (fun o => match o with
                                          | _ => o end)
